@@ -13,7 +13,7 @@ Require Import Cherab.Common.Qx.
 Require Import Cherab.Model.C16_Instruments.
 Require Import Cherab.Proofs.C16_Base Cherab.Proofs.C16_Spectrometer Cherab.Proofs.C16_CzernyTurner
                Cherab.Proofs.C16_Polychromator Cherab.Proofs.C16_Range Cherab.Proofs.C16_Calibrate
-               Cherab.Proofs.C16_Round Cherab.Proofs.C16_Filters.
+               Cherab.Proofs.C16_Round Cherab.Proofs.C16_Filters Cherab.Model.C16_Source Cherab.Proofs.C16_Source.
 From Coq Require Import String.
 Open Scope Q_scope.
 
@@ -227,6 +227,30 @@ Theorem C16_calibrate_call_outcomes :
   end.
 Proof. exact calibrate_call_spec. Qed.
 Print Assumptions C16_calibrate_call_outcomes.
+
+(* The cache effects of every setter of the model are the ones listed in the tables of Model/C16_Source.v; those
+   tables are regenerated from the current source by harness/c16_source.py and compared by the kernel on every run
+   (coq/Gen/C16/Source.v, Lemma source_tie).  This is the per-setter obligation "clears what depends on it",
+   tied to the source text instead of to a hand copy. *)
+Theorem C16_setters_have_tabled_effects :
+  forall (rnd : Q -> Q) (resolution : ct_key -> Q -> Q) (deg2rad : Q -> Q),
+  (forall v s s', sp_set_mbpp v s = Ok s' -> sp_base s' = run_effs true (effs "Spectrometer" "min_bins_per_pixel") (sp_base s)) /\
+  (forall v s s', sp_set_w2p rnd v s = Ok s' -> sp_base s' = run_effs true (effs "Spectrometer" "wavelength_to_pixel") (sp_base s)) /\
+  (forall v b, caches (set_name v b) = caches (run_effs true (effs "SpectroscopicInstrument" "name") b)) /\
+  (forall v s s', ct_set_order rnd resolution v s = Ok s' ->
+     ct_base s' = run_effs (is_some (ct_acc s)) (effs "CzernyTurnerSpectrometer" "diffraction_order") (ct_base s)) /\
+  (forall upd v s s', ct_set_pos rnd resolution upd v s = Ok s' ->
+     ct_base s' = run_effs (is_some (ct_acc s)) (effs "CzernyTurnerSpectrometer" "grating") (ct_base s)) /\
+  (forall v s s', ct_set_angle rnd resolution deg2rad v s = Ok s' ->
+     ct_base s' = run_effs (is_some (ct_acc s)) (effs "CzernyTurnerSpectrometer" "diffraction_angle") (ct_base s)) /\
+  (forall v s s', ct_set_acc rnd resolution v s = Ok s' ->
+     ct_base s' = run_effs true (effs "CzernyTurnerSpectrometer" "accommodated_spectra") (ct_base s)) /\
+  (forall v s s', ct_set_mbpp v s = Ok s' -> ct_base s' = run_effs true (effs "Spectrometer" "min_bins_per_pixel") (ct_base s)) /\
+  (forall v s s', pc_set_mbpw v s = Ok s' -> pc_base s' = run_effs true (effs "Polychromator" "min_bins_per_window") (pc_base s)) /\
+  (forall v s s', pc_set_filters v s = Ok s' -> pc_base s' = run_effs true (effs "Polychromator" "filters") (pc_base s)) /\
+  (forall s, ct_base (ct_update_w2p rnd resolution s) = eff_base (is_some (ct_acc s)) EUpdW2p (ct_base s)).
+Proof. exact setters_have_tabled_effects. Qed.
+Print Assumptions C16_setters_have_tabled_effects.
 
 (* the hypotheses are satisfiable: the example of the class docstring (exact arithmetic gives the
    2070 bins the implementation reports) *)
